@@ -37,6 +37,9 @@ def obligations(tier):
                      defs=["MODE=%d" % m], unwind=5, cut_loops=["xstream_context_thread_func@while \\(p_ctx->state == ABTD_XSTREAM_CONTEXT_STATE_WAITING:4", "ABTD_xstream_context_join@while \\(p_ctx->state == ABTD_XSTREAM_CONTEXT_STATE_REQ_JOIN:4"], object_bits=10, backend="cadical",
                      encodes=["xstream_context_thread_func", "ABTD_xstream_context_join", "ABTD_xstream_context_revive", "ABTD_xstream_context_free"],
                      bounds="create + <=1 revive + free; <=3 steps of the other party per sleep; <=3 spurious wake-ups per wait loop (cut by assumption)", symbolic="when the other party acts, spurious wake-ups, whether the stream is revived"))
+    import importlib
+    c01 = importlib.import_module("C01")
+    o += [x for x in c01.own_obligations(tier) if x.name == "main_sched_func_replace"]
     return o
 
 MANIFEST_ENTRY = {
